@@ -155,6 +155,77 @@ def indeterminates(pre, sigs, params):
     return list(sigs) + (list(params) if pre[1] == "function" else [])
 
 
+def oracle_case(ctx, orng, x, src, curve, kv, kd, check_vals, check_degs):
+    """The violation-search oracle on one lifted case: interpreter for value claims, finite differences for degree claims."""
+    failing = []
+    exercised_v = exercised_d = 0
+    p = proggen.PRIMES[curve]
+    vals, names, sigs, params = valuations(orng, x[1], p, 6 if ctx.tier == "quick" else 12)
+    if check_vals:
+        bad, ex = irsem.check_values(x[1], x[2], p, vals)
+        exercised_v += ex
+        for (vi, pos, nvis, val, cv) in bad[:1]:
+            failing.append({"input": src, "curve": curve, "budget": [kv, kd], "classes": sorted(irsem.node_class(x[2], pos)), "valuation": {"%s:%s" % (a, sexp.unhex(b)): c for (a, b), c in vals[vi].items()},
+                            "impl": "claims %s at node %s (visit %s)" % (sexp.show(cv), pos, nvis),
+                            "spec": "evaluates to %s" % (hex(val) if isinstance(val, int) else val), "kind": "value"})
+    if check_degs:
+        ind = indeterminates(x[1], sigs, params)
+        if ind:
+            for trial in range(3 if ctx.tier == "quick" else 5):
+                if trial == 0:      # the line 0, 1, 2, 3, 4 (small values reach array indices)
+                    base = {nm: 0 for nm in names}
+                    direction = {nm: 1 for nm in ind}
+                else:
+                    base = orng.choice(vals)
+                    direction = {nm: orng.randrange(1, p) for nm in ind}
+                bad, ex, diverged = irsem.check_degrees(x[1], x[2], p, base, direction, ind)
+                exercised_d += ex
+                for (k, cd, vs) in bad[:1]:
+                    cls = irsem.node_class(x[2], k[0])
+                    if diverged:
+                        cls.add("ctl-merge")
+                    failing.append({"input": src, "curve": curve, "budget": [kv, kd], "classes": sorted(cls),
+                                    "impl": "claims degree range %s at node %s" % (sexp.show(cd), k),
+                                    "spec": "values along a line in signal space %s have a non-zero finite difference of that order" % [hex(v) for v in vs],
+                                    "kind": "degree"})
+                if bad:
+                    break
+    return failing, exercised_v, exercised_d
+
+
+ESCALATION_SHAPES = [
+    "template T(n) { signal input a; signal output b[n]; var acc = 1; for (var i = 0; i < n; i++) { b[i] <-- acc; acc = acc * a; } }",
+    "template T(n) { signal input a; signal output b; var acc = 1; var k = 0; while (k < n) { acc = acc * a; k += 1; } b <-- acc; }",
+    "template T(n) { signal input a; signal output b; var acc = a; for (var i = 0; i < n; i++) { for (var j = 0; j < 2; j++) { acc = acc + acc * a; } } b <-- acc; }",
+    "function f(n) { var c = 0; var d = 1; for (var i = 0; i < n; i++) { c = c + d; d = d * 2; } if (c == 0) { return 1; } if (d == 1) { return 2; } return c; }",
+    "template T(n) { signal input a; signal output b; var x = 0; var y = a; for (var i = 0; i < n; i++) { x = y; y = y * a; } b <-- x; }",
+]
+
+
+def escalate(ctx, H, orng, disagreements, unjustified, check_vals, check_degs):
+    seen, progs = set(), []
+    for d in list(disagreements) + list(unjustified):
+        key = (d.get("curve", "BN254"), d["input"])
+        if key not in seen and len(progs) < 16:
+            seen.add(key)
+            progs.append((key[0], key[1], "escalation/disagreeing"))
+    progs += [("BN254", q, "escalation/loop-shape") for q in ESCALATION_SHAPES]
+    budgets = [("-", str(k)) for k in range(0, 41)] + [(str(k), "-") for k in range(0, 41)] + [(str(k), str(k)) for k in (1, 2, 3, 4, 6, 8, 12, 16, 24, 32)]
+    impl = lift_all(H, progs, budgets)
+    failing = []
+    cases = 0
+    for (i, kv, kd), o in impl.items():
+        if not o.startswith("(ok "):
+            continue
+        cases += 1
+        curve, src, _ = progs[i]
+        f_, _, _ = oracle_case(ctx, orng, sexp.parse(o), src, curve, kv, kd, check_vals, check_degs)
+        failing += f_
+        if len([f for f in failing if not (set(f.get("classes", [])) & set(KF_TEXT))]) >= 5:
+            break
+    return {"failing": failing, "cases": cases, "programs": len(progs), "budgets": len(budgets)}
+
+
 def run(ctx, proofs, budgets, check_vals=True, check_degs=True, n_quick=500, n_thorough=8000, props=("C06", "C07", "C20")):
     H = common.build_harness("ir")
     M = common.build_model("ir")
@@ -225,38 +296,17 @@ def run(ctx, proofs, budgets, check_vals=True, check_degs=True, n_quick=500, n_t
         if claims["val"] - before["val"] > claims["literal"] - before["literal"] or claims["deg_le_quadratic"] > before["deg_le_quadratic"]:
             nontrivial.add((src, kv, kd))
         # oracle
-        p = proggen.PRIMES[curve]
-        vals, names, sigs, params = valuations(orng, x[1], p, 6 if ctx.tier == "quick" else 12)
-        if check_vals:
-            bad, ex = irsem.check_values(x[1], x[2], p, vals)
-            exercised_v += ex
-            for (vi, pos, nvis, val, cv) in bad[:1]:
-                failing.append({"input": src, "curve": curve, "budget": [kv, kd], "classes": sorted(irsem.node_class(x[2], pos)), "valuation": {"%s:%s" % (a, sexp.unhex(b)): c for (a, b), c in vals[vi].items()},
-                                "impl": "claims %s at node %s (visit %s)" % (sexp.show(cv), pos, nvis),
-                                "spec": "evaluates to %s" % (hex(val) if isinstance(val, int) else val), "kind": "value"})
-        if check_degs:
-            ind = indeterminates(x[1], sigs, params)
-            if ind:
-                for trial in range(3 if ctx.tier == "quick" else 5):
-                    if trial == 0:      # the line 0, 1, 2, 3, 4 (small values reach array indices)
-                        base = {nm: 0 for nm in names}
-                        direction = {nm: 1 for nm in ind}
-                    else:
-                        base = orng.choice(vals)
-                        direction = {nm: orng.randrange(1, p) for nm in ind}
-                    bad, ex, diverged = irsem.check_degrees(x[1], x[2], p, base, direction, ind)
-                    exercised_d += ex
-                    for (k, cd, vs) in bad[:1]:
-                        cls = irsem.node_class(x[2], k[0])
-                        if diverged:
-                            cls.add("ctl-merge")
-                        failing.append({"input": src, "curve": curve, "budget": [kv, kd], "classes": sorted(cls),
-                                        "impl": "claims degree range %s at node %s" % (sexp.show(cd), k),
-                                        "spec": "values along a line in signal space %s have a non-zero finite difference of that order" % [hex(v) for v in vs],
-                                        "kind": "degree"})
-                    if bad:
-                        break
-    return {"cc_seen": cc_seen, "cc_missing": cc_missing, "disagreements": disagreements, "failing": failing, "unjustified": unjustified, "validated": len(valid),
+        f_, ev_, ed_ = oracle_case(ctx, orng, x, src, curve, kv, kd, check_vals, check_degs)
+        failing += f_
+        exercised_v += ev_
+        exercised_d += ed_
+    escalated = None
+    if (disagreements or unjustified) and not [f for f in failing if f.get("kind") in ("value", "degree") and not (set(f.get("classes", [])) & set(KF_TEXT))]:
+        # the correspondence or a validator broke and the ordinary exploration found no wrong claim: search harder,
+        # at every pass budget 0..40 on the cases that disagree plus loop shapes whose claims need many passes
+        escalated = escalate(ctx, H, orng, disagreements, unjustified, check_vals, check_degs)
+        failing += escalated["failing"]
+    return {"escalated": None if escalated is None else {k: v for k, v in escalated.items() if k != "failing"}, "cc_seen": cc_seen, "cc_missing": cc_missing, "disagreements": disagreements, "failing": failing, "unjustified": unjustified, "validated": len(valid),
             "dvalidated": sum(1 for o in dvalid.values() if o == "(justified)"), "dskipped_arrays": sum(1 for o in dvalid.values() if o == "(arrays)"), "status": status, "claims": claims,
             "nontrivial": len(nontrivial), "evaluations": evaluations, "programs": len(progs),
             "exercised_value_claims": exercised_v, "exercised_degree_claims": exercised_d,
@@ -324,6 +374,8 @@ def verdict(ctx, proofs, r, kinds, known_classes, extra_cov=None):
         "disagreements_model_vs_impl": len(r["disagreements"]),
         "input_origins": r["origins"],
     }
+    if r.get("escalated"):
+        cov["escalated_search_after_broken_correspondence"] = r["escalated"]
     if "finding" in kinds:
         cov["constant_condition_reports_compared_with_Model_ConstCond"] = r["cc_seen"]
     if extra_cov:
